@@ -1,5 +1,157 @@
 package c19
 
-import "verif/internal/core"
+// Part (b): goroutine schedules of GetRandomSafePrimesConcurrent under the controlled scheduler.
+// The harness (cmd/sched19) is built with an overlay in which /repo/common/safe_prime.go is replaced by a
+// mechanically instrumented copy of the CURRENT file (sync -> verif/vsched, go statements, selects and
+// channel sends turned into scheduling points); every (scenario, preemption bound) runs in its own process.
 
-func runSchedules(r *core.Run) {}
+import (
+	"encoding/json"
+	"fmt"
+	"os"
+	"os/exec"
+	"path/filepath"
+	"runtime"
+	"strings"
+	"sync"
+
+	"verif/internal/core"
+	"verif/internal/ovl"
+)
+
+type schedViolation struct {
+	Key      string   `json:"key"`
+	What     string   `json:"what"`
+	Schedule []int    `json:"schedule"`
+	Trace    []string `json:"trace"`
+}
+
+type schedResult struct {
+	Scenario    string           `json:"scenario"`
+	Bound       int              `json:"bound"`
+	Schedules   int              `json:"schedules"`
+	Steps       int              `json:"steps"`
+	MaxPoints   int              `json:"max_points"`
+	Capped      bool             `json:"capped"`
+	Outcomes    map[string]int   `json:"outcomes"`
+	Violations  []schedViolation `json:"violations"`
+	SampleTrace []string         `json:"sample_trace"`
+}
+
+func runSchedules(r *core.Run) {
+	dir := filepath.Join(core.WorkDir(), fmt.Sprintf("c19s-%d", os.Getpid()))
+	_ = os.MkdirAll(dir, 0o755)
+	defer os.RemoveAll(dir)
+	o, err := ovl.Base()
+	if err != nil {
+		r.Cap("cannot read VERIF_OVERLAY: " + err.Error())
+		return
+	}
+	st, err := o.Instrument(dir, "/repo/common/safe_prime.go", nil, nil)
+	if err != nil {
+		fmt.Fprintln(os.Stderr, "INFRASTRUCTURE: cannot instrument common/safe_prime.go:", err)
+		os.Exit(2)
+	}
+	if !st.SyncImport || st.GoStmts < 1 || st.Selects < 2 {
+		fmt.Fprintf(os.Stderr, "INFRASTRUCTURE: instrumentation of common/safe_prime.go found too little (%+v)\n", st)
+		os.Exit(2)
+	}
+	r.Set("sched_instrumentation", fmt.Sprintf("%+v", st))
+	ovPath, _ := o.Write(dir)
+	bin := filepath.Join(dir, "sched19")
+	if err := ovl.Build(ovPath, "./cmd/sched19", bin, false); err != nil {
+		fmt.Fprintln(os.Stderr, "INFRASTRUCTURE:", err)
+		os.Exit(2)
+	}
+	lst, err := exec.Command(bin, "list").Output()
+	if err != nil {
+		fmt.Fprintln(os.Stderr, "INFRASTRUCTURE: sched19 list:", err)
+		os.Exit(2)
+	}
+	type job struct {
+		idx, conc, primes, bound, maxExec int
+		name                                 string
+	}
+	var jobs []job
+	for _, line := range strings.Split(strings.TrimSpace(string(lst)), "\n") {
+		var j job
+		parts := strings.SplitN(line, "\t", 4)
+		fmt.Sscan(parts[0], &j.idx)
+		fmt.Sscan(parts[1], &j.conc)
+		fmt.Sscan(parts[2], &j.primes)
+		j.name = parts[3]
+		cancel := strings.Contains(j.name, "cancel")
+		if r.Tier == "quick" {
+			j.bound, j.maxExec = 1, 600000
+			if j.conc*j.primes <= 2 {
+				j.bound = 2
+			}
+		} else {
+			j.maxExec = 6000000
+			switch {
+			case j.conc == 1:
+				j.bound = 99 // unbounded
+			case j.conc == 2 && j.primes == 1:
+				j.bound = 3
+			case j.conc == 2:
+				j.bound = 2
+			case !cancel:
+				j.bound = 2
+			default:
+				j.bound = 1
+			}
+		}
+		jobs = append(jobs, j)
+	}
+	results := make([]*schedResult, len(jobs))
+	var mu sync.Mutex
+	core.ParallelFor(len(jobs), runtime.NumCPU(), func(i int) {
+		j := jobs[i]
+		out, err := exec.Command(bin, "run", fmt.Sprint(j.idx), fmt.Sprint(j.bound), fmt.Sprint(j.maxExec)).Output()
+		if err != nil {
+			mu.Lock()
+			r.Cap("scheduler harness failed for " + j.name + ": " + err.Error())
+			mu.Unlock()
+			return
+		}
+		var res schedResult
+		if err := json.Unmarshal(out, &res); err != nil {
+			mu.Lock()
+			r.Cap("scheduler harness output unreadable for " + j.name)
+			mu.Unlock()
+			return
+		}
+		results[i] = &res
+	})
+	var schedules, steps int
+	for _, res := range results {
+		if res == nil {
+			continue
+		}
+		schedules += res.Schedules
+		steps += res.Steps
+		for _, v := range res.Violations {
+			if strings.HasPrefix(v.Key, "infrastructure/") {
+				r.Cap("scheduler: " + v.Key + " in " + res.Scenario)
+				continue
+			}
+			r.Violate("sched/"+v.Key, v.What+" [scenario "+res.Scenario+"]", map[string]interface{}{"scenario": res.Scenario, "schedule": v.Schedule, "trace": v.Trace})
+		}
+		if res.Capped {
+			r.Cap(fmt.Sprintf("schedule cap hit in %s at preemption bound %d after %d schedules", res.Scenario, res.Bound, res.Schedules))
+		}
+		for k := range res.Outcomes {
+			r.Distinct("sched_outcomes", res.Scenario+"="+k)
+			r.Distinct("cases", "sched|"+res.Scenario+"|"+k)
+		}
+		r.Set("sched:"+res.Scenario, map[string]interface{}{"preemption_bound": res.Bound, "schedules": res.Schedules, "scheduling_points_total": res.Steps, "max_points": res.MaxPoints, "outcomes": res.Outcomes})
+		if len(res.SampleTrace) > 0 && strings.Contains(res.Scenario, "conc=2,primes=1,reader=P*,cancel") {
+			r.Sample(8, map[string]interface{}{"kind": "longest schedule", "scenario": res.Scenario, "trace": res.SampleTrace})
+		}
+	}
+	r.Count("sched_runs", int64(schedules))
+	r.Set("states", steps)
+	r.Set("transitions", steps)
+	r.Set("traces_validated_against_impl", schedules)
+	r.Assume("scheduling points in common/safe_prime.go: go statements, select statements, channel sends, WaitGroup.Wait, every reader.Read and the canceller's cancel(); buffered-channel readiness by length, done-channel readiness by closedness")
+}
